@@ -6,6 +6,7 @@ CONSTANTS
   Dev_NilSession = FALSE
   Dev_UnknownItem = FALSE
   Dev_BlockedFanout = FALSE
+  Dev_EndedSubFanout = FALSE
   SvcFilter = {}
 SPECIFICATION Spec
 INVARIANTS InvAliveAndResponsive InvItemInSub
